@@ -63,3 +63,18 @@ VARIANTS = [
         "        self.object_results: List[DynamicObjectWithPerceptionResult] = filter_object_results(\n            self.object_results,\n            transforms=self.frame_ground_truth.transforms,",
         "        tfs = self.frame_ground_truth.transforms\n        self.object_results: List[DynamicObjectWithPerceptionResult] = filter_object_results(\n            self.object_results,\n            transforms=tfs,")]),
 ]
+
+# seeded (C19 wave): a stale alias of the caller's un-narrowed frame reaches pass/fail; and its benign twin
+_NARROW = """        self.frame_ground_truth = copy(self.frame_ground_truth)
+        self.frame_ground_truth.objects = filter_objects(
+            self.frame_ground_truth.objects,"""
+_NARROW_ALIAS = """        frame_ground_truth = self.frame_ground_truth
+        self.frame_ground_truth = copy(frame_ground_truth)
+        self.frame_ground_truth.objects = filter_objects(
+            frame_ground_truth.objects,"""
+VARIANTS += [
+    dict(name="seed-stale-alias-reaches-pass-fail", kind="break", rule="C03-critical", edits=[
+        ("evaluation/result/perception_frame_result.py", _NARROW, _NARROW_ALIAS),
+        ("evaluation/result/perception_frame_result.py", "self.pass_fail_result.evaluate(self.object_results, self.frame_ground_truth.objects)", "self.pass_fail_result.evaluate(self.object_results, frame_ground_truth.objects)")]),
+    dict(name="alias-only-feeds-the-filter", kind="benign", edits=[("evaluation/result/perception_frame_result.py", _NARROW, _NARROW_ALIAS)]),
+]
